@@ -875,6 +875,10 @@ def run(rep, tier):
     for u_ in (uc, ug, ugs):
         n_bp += r_tbaa.check_byte_param_casts(rep, u_, [f for f in u_.function_list if f.relfile() in (CH, GO)])
     rep.floor("caller buffers accessed through wider types", n_bp, 6)
+    n_ak = 0
+    for u_ in (uc, ug, ugs):
+        n_ak += r_tbaa.check_alias_dropped(rep, u_, [f for f in u_.function_list if f.relfile() in (CH, GO)])
+    rep.floor("may_alias pointers handed to callees", n_ak, 4)
     return driver.finish(
         rep, "other",
         "Static analysis of chacha.h and gost28147.h (neither is compiled by the test suite). Decided: ChaCha constants, "
